@@ -130,6 +130,17 @@ def r07b(ctx, repo):
     after = cfg.path_exists(cfg.ids(a), [i for s in sol + ins for i in cfg.ids(s)])
     before = cfg.path_exists([i for s in sol for i in cfg.ids(s)], cfg.ids(a))
     ctx.check(not after and not before, "R07b", fi, a, "saved state short-circuits the solve", "the characteristic system is solved %s the saved initialisation is applied: the saved state does not win" % ("after" if after else "before"))
+    # nothing decides the initial state before the saved state had its chance: the only exit in front of it is "this population has no compartments"
+    from ..core import boolx as B
+
+    me = K.self_name(fi)
+    test_if = getattr(a, "_parent", None)
+    early = [r for r in own_nodes(fi.node) if isinstance(r, ast.Return) and r.lineno < (test_if.lineno if test_if is not None else a.lineno)]
+    for r in early:
+        ok = B.equivalent(B.cond(guards_of(r, asserts=False)), B.parse_cond("not %s.comps" % me))
+        ctx.check(ok, "R07b", fi, r, "the only exit in front of the saved state is 'no compartments'", "initialize_compartments can return under `%s` before a saved initialisation is looked at: a run restarted from a saved state then starts from something else (all compartments empty)" % " and ".join(("" if p_ else "not ") + ast.unparse(t)[:60] for t, p_ in guards_of(r, asserts=False)), stmt_text="early-return-before-saved-state")
+    pre = [s_ for s_ in ins if s_.lineno < a.lineno and cfg.path_exists(cfg.ids(s_), cfg.ids(a)) is not None and s_.lineno < (test_if.lineno if test_if is not None else a.lineno)]
+    ctx.check(not pre, "R07b", fi, pre[0] if pre else a, "no compartment is written before the saved state is considered", "`%s` sets an initial compartment size before the saved initialisation is considered" % (norm(pre[0]) if pre else ""), stmt_text="store-before-saved-state")
 
 
 def r07d(ctx, repo):
